@@ -20,14 +20,16 @@ accepting because it was idle.  At a `stop` at time `t`
 A stop that is not an idle shutdown (the listening socket failed: `accept()` raised `OSError`) is outside the
 property and is not an event.
 
-(a) the launcher, per endpoint (command hash).  "alive" is read as *accepting* (DESIGN §7.3).  Events: a worker
-was spawned (it is accepting and the endpoint's path names it) / a worker stopped accepting / the path was
-removed / a launch returned.
-  * `spawn`: no other worker of the endpoint is accepting at that moment;
+(a) the launcher, per endpoint (command hash).  A worker is *alive* from the moment its process is created until it stops
+accepting (or dies during start-up); it is *accepting* from the moment its socket listens (DESIGN §7.3 reads "alive" as
+accepting for a worker that has LEFT its accept loop: such a worker is no longer alive here either).  Events: a worker
+process was created / bound the endpoint's path / started listening / stopped accepting (or died) / the path was removed /
+a launch returned.
+  * `spawn`: no other worker of the endpoint is alive at that moment — neither accepting nor still starting up;
   * `ret t0 t`: a launch that decided at `t0` (its probe connected, or its worker reported readiness) returns
-    at `t`: the path names an accepting worker — demanded whenever `t < t0 + idle`: a worker may legitimately
-    idle out `idle` after its last connection, and the launcher's probe is such a connection, so no launcher
-    can promise more than that.
+    at `t`: the path names an ACCEPTING worker (one that is listening: a bound socket that does not listen yet refuses
+    connections) — demanded whenever `t < t0 + idle`: a worker may legitimately idle out `idle` after its last
+    connection, and the launcher's probe is such a connection, so no launcher can promise more than that.
 -/
 namespace VgiVerif.C33.Spec
 
@@ -63,27 +65,32 @@ def WorkerOk (idle grace : Nat) (evs : List Ev) : Prop := (Mon.run idle grace ev
 /-! ### (a) launcher: single spawn, accepting at return -/
 
 inductive LEv where
-  | spawn (w : Nat)             -- worker `w` spawned: accepting, the path names it
-  | exit (w : Nat)              -- worker `w` stopped accepting
+  | spawn (w : Nat)             -- worker process `w` created
+  | bind (w : Nat)              -- worker `w` bound its socket: the path names it
+  | ready (w : Nat)             -- worker `w` listens: connections are accepted from now on
+  | exit (w : Nat)              -- worker `w` stopped accepting (idle exit) or died during start-up
   | unlink                      -- the endpoint's socket path was removed
   | ret (t0 t : Nat)            -- a launch that decided at `t0` returned the path at `t`
 deriving Repr, DecidableEq
 
 structure LMon where
-  alive : List Nat := []        -- accepting workers
+  alive : List Nat := []        -- created, not yet exited
+  acc : List Nat := []          -- accepting (listening, not yet exited)
   path : Option Nat := none     -- the worker the path names
-  badSpawn : Bool := false      -- a worker was spawned while another one was accepting
+  badSpawn : Bool := false      -- a worker was spawned while another one was alive
   badRet : Bool := false        -- a launch returned a path that names no accepting worker
 deriving Repr, DecidableEq
 
 def LMon.pathAccepting (m : LMon) : Bool :=
   match m.path with
-  | some w => m.alive.contains w
+  | some w => m.acc.contains w
   | none => false
 
 def LMon.step (idle : Nat) (m : LMon) : LEv → LMon
-  | .spawn w => { m with alive := w :: m.alive, path := some w, badSpawn := m.badSpawn || !m.alive.isEmpty }
-  | .exit w => { m with alive := m.alive.filter (fun x => x != w) }
+  | .spawn w => { m with alive := w :: m.alive, badSpawn := m.badSpawn || !m.alive.isEmpty }
+  | .bind w => { m with path := some w }
+  | .ready w => { m with acc := w :: m.acc }
+  | .exit w => { m with alive := m.alive.filter (fun x => x != w), acc := m.acc.filter (fun x => x != w) }
   | .unlink => { m with path := none }
   | .ret t0 t => { m with badRet := m.badRet || (decide (t < t0 + idle) && !m.pathAccepting) }
 
